@@ -165,6 +165,16 @@ class VerifyService:
                             its_aid_length=0,
                             permissions=b'',
                         )
+            # IEEE 1609.2 §5.2.4.2.2 / TS 103 097 §7.1: the ITS-AID of the message
+            # SHALL be among the appPermissions of the signing authorization ticket.
+            if not authorization_ticket.authorizes_its_aid(psid):
+                return SNVERIFYConfirm(
+                    report=ReportVerify.INVALID_CERTIFICATE,
+                    certificate_id=authorization_ticket.as_hashedid8(),
+                    its_aid=b'',
+                    its_aid_length=0,
+                    permissions=b'',
+                )
             its_aid_bytes = psid.to_bytes(
                 (psid.bit_length() + 7) // 8 or 1, "big")
             verification_key = authorization_ticket.certificate["toBeSigned"]["verifyKeyIndicator"][
